@@ -35,7 +35,7 @@ Defer(e) == SzExpr(e, "deferred")
 Lam(e) == SzExpr(e, "lambda")
 
 \* ------------------------------------------------------------------ smoke
-U_Smoke == {
+U_Smoke(zz) == {
     Decl1(<<U1("a"), IntF("b", 2, TRUE, "little")>>, {0, 1, 255}, 4),
     Decl1(<<IntF("a", 3, TRUE, "default")>>, {0, 128, 255}, 4),
     Decl1(<<U1("n"), DataF("d", SzField("n")), U1("z")>>, {0, 1, 2, 65}, 4),
@@ -69,7 +69,7 @@ Windows == {-1, 0, 1, 2, 3}
 DataDecl(mode, sbl, alpha, n) ==
     DeclO([DefaultOpts EXCEPT !.sbl = sbl], <<U1("pre"), DataF("d", mode), U1("post")>>, alpha, n)
 
-U_C06 ==
+U_C06(zz) ==
     {DataDecl(md, -1, {0, 1, 2, 3}, 5) : md \in SizedModes}
     \cup {DataDecl(md, w, {0, 1, 65}, 5) : md \in MarkerModes(<<0>>), w \in Windows}
     \cup {DataDecl(md, w, {97, 98, 1}, 5) : md \in MarkerModes(<<97, 98>>), w \in Windows}
@@ -103,18 +103,18 @@ Compositions(total) ==
 BitNames == <<"b1", "b2", "b3", "b4", "b5", "b6", "b7", "b8", "b9", "b10", "b11", "b12", "b13", "b14", "b15", "b16">>
 BitFields(ws) == [i \in 1..Len(ws) |-> BitsF(BitNames[i], ws[i])]
 
-U_C07_8 == {Decl1(BitFields(ws), 0..255, 1) : ws \in Compositions(8)}
+U_C07_8(zz) == {Decl1(BitFields(ws), 0..255, 1) : ws \in Compositions(8)}
 Lanes == {0, 1, 127, 128, 165, 254, 255}
-U_C07_16 == {Decl1(BitFields(ws), Lanes, 2) : ws \in {c \in Compositions(16) : Len(c) <= 4}}
-U_C07_24 == {Decl1(<<U1("pre")>> \o BitFields(ws) \o <<U1("post")>>, {0, 165, 255}, 5) :
+U_C07_16(zz) == {Decl1(BitFields(ws), Lanes, 2) : ws \in {c \in Compositions(16) : Len(c) <= 4}}
+U_C07_24(zz) == {Decl1(<<U1("pre")>> \o BitFields(ws) \o <<U1("post")>>, {0, 165, 255}, 5) :
                 ws \in {<<12, 12>>, <<4, 12, 8>>, <<1, 22, 1>>, <<7, 9, 3, 5>>, <<24>>}}
 \* runs next to other fields, in nested packets, under a little-endian class default
-U_C07_Ctx ==
+U_C07_Ctx(zz) ==
     {DeclO([DefaultOpts EXCEPT !.endian = e], <<U1("pre")>> \o BitFields(ws) \o <<IntF("post", 2, FALSE, "default")>>,
            {0, 1, 165, 255}, 5) : ws \in {<<3, 5>>, <<4, 12>>, <<12, 4>>, <<1, 7, 8>>}, e \in {"none", "little"}}
     \cup {DeclP([C0 |-> Class(DefaultOpts, <<BitsF("a", 4), BitsF("b", 4), RefF("s", "C1"), BitsF("c", 2), BitsF("d", 6)>>),
                  C1 |-> Class(DefaultOpts, BitFields(<<5, 3>>))], {0, 90, 255}, 4, {0, 1})}
-U_C07 == U_C07_8 \cup U_C07_24 \cup U_C07_Ctx
+U_C07(zz) == U_C07_8(0) \cup U_C07_24(0) \cup U_C07_Ctx(0)
 
 \* -------------------------------------------------------------------- C08
 Elems == {U1("e"), IntF("e", 2, TRUE, "little"), DataF("e", SzConst(1)), DataF("e", SzMarker(<<0>>, FALSE, TRUE)),
@@ -138,29 +138,29 @@ IsPktElem(e) == e.k = "Ref"
 CtlProg(fields) == [C0 |-> Class(DefaultOpts, fields), C1 |-> Sub1]
 CtlDecl(fields, n) == DeclP(CtlProg(fields), {0, 1, 2, 255}, n, {0})
 
-U_C08_Count == {CtlDecl(<<S1("n"), U1("t"), RepCountF("r", e, c, w, 0), U1("z")>>, 4) :
+U_C08_Count(zz) == {CtlDecl(<<S1("n"), U1("t"), RepCountF("r", e, c, w, 0), U1("z")>>, 4) :
                    e \in Elems, c \in Counts, w \in {NoCond, SzField("t")}}
                \cup {CtlDecl(<<S1("n"), U1("t"), RepCountF("r", e, SzField("n"), w, a), U1("z")>>, 4) :
                    e \in {U1("e"), RefF("e", "C1")}, w \in Whens, a \in {0, 2, 3}}
 \* (per-element alignment is measured from absolute position 0, like 'begins': start offset 0 only)
-U_C08_Until == {CtlDecl(<<U1("t"), RepUntilF("r", e, u, w, a), U1("z")>>, 5) :
+U_C08_Until(zz) == {CtlDecl(<<U1("t"), RepUntilF("r", e, u, w, a), U1("z")>>, 5) :
                    e \in {U1("e"), IntF("e", 2, TRUE, "little")}, u \in UntilInt, w \in {NoCond, SzField("t")}, a \in {0, 2}}
                \cup {CtlDecl(<<U1("t"), RepUntilF("r", RefF("e", "C1"), u, w, a), U1("z")>>, 5) :
                    u \in UntilPkt, w \in {NoCond, Defer(EBin("eq", EF("t"), EC(1)))}, a \in {0, 3}}
-U_C08_Opt == {CtlDecl(<<U1("t"), OptF("o", e, w), U1("z")>>, 4) : e \in Elems, w \in Whens \ {NoCond}}
+U_C08_Opt(zz) == {CtlDecl(<<U1("t"), OptF("o", e, w), U1("z")>>, 4) : e \in Elems, w \in Whens \ {NoCond}}
 \* packets inside sequences inside packets
-U_C08_Nest == {DeclP([C0 |-> Class(DefaultOpts, <<S1("n"), RepCountF("r", RefF("e", "C1"), SzField("n"), NoCond, 0), U1("z")>>),
+U_C08_Nest(zz) == {DeclP([C0 |-> Class(DefaultOpts, <<S1("n"), RepCountF("r", RefF("e", "C1"), SzField("n"), NoCond, 0), U1("z")>>),
                       C1 |-> Class(DefaultOpts, <<U1("m"), RepCountF("s", U1("e"), SzField("m"), NoCond, 0),
                                                   OptF("o", RefF("e", "C2"), Defer(EBin("gt", EF("m"), EC(1))))>>),
                       C2 |-> Class(DefaultOpts, <<U1("q")>>)], {0, 1, 2}, 6, {0, 1})}
 \* two references (plain and repeated) selecting from ONE shared option table
 SharedAlts == <<[key |-> 0, alt |-> IntF("", 1, FALSE, "default")], [key |-> 1, alt |-> IntF("", 2, FALSE, "default")],
                 [key |-> 2, alt |-> DataF("", SzConst(1))]>>
-U_C08_Shared == {CtlDecl(<<U1("t"), RefSelSharedF("v", EF("t"), SharedAlts, "T1", IntV(0)),
+U_C08_Shared(zz) == {CtlDecl(<<U1("t"), RefSelSharedF("v", EF("t"), SharedAlts, "T1", IntV(0)),
                            RefSelSharedF("w", EF("t"), SharedAlts, "T1", IntV(0)), U1("z")>>, 6),
                  CtlDecl(<<U1("t"), U1("n"), RepCountF("r", RefSelSharedF("e", EF("t"), SharedAlts, "T1", IntV(0)), SzField("n"), NoCond, 0),
                            RefSelSharedF("w", EF("t"), SharedAlts, "T1", IntV(0))>>, 6)}
-U_C08 == U_C08_Count \cup U_C08_Until \cup U_C08_Opt \cup U_C08_Nest \cup U_C08_Shared
+U_C08(zz) == U_C08_Count(0) \cup U_C08_Until(0) \cup U_C08_Opt(0) \cup U_C08_Nest(0) \cup U_C08_Shared(0)
 
 \* -------------------------------------------------------------------- C10
 Refs == {"innermost-pkt", "begins", "current-offset"}
@@ -173,30 +173,30 @@ MvField(f, mv) == [f EXCEPT !.mv = mv]
 UsesBegins(mv) == mv.kind \in {"at", "aligned"} /\ mv.ref = "begins"
 
 \* flat: [a, b.<modifier>, c]; nested: the same class one level down behind a header
-U_C10_Flat == {DeclP([C0 |-> Class(DefaultOpts, <<S1("a"), MvField(U1("b"), mv), U1("c")>>)], {0, 1, 2, 255}, 4,
+U_C10_Flat(zz) == {DeclP([C0 |-> Class(DefaultOpts, <<S1("a"), MvField(U1("b"), mv), U1("c")>>)], {0, 1, 2, 255}, 4,
                       IF UsesBegins(mv) THEN {0} ELSE {0, 1, 3}) : mv \in Mods}
-U_C10_Nest == {DeclP([C0 |-> Class(DefaultOpts, <<U1("h"), RefF("s", "C1"), U1("t")>>),
+U_C10_Nest(zz) == {DeclP([C0 |-> Class(DefaultOpts, <<U1("h"), RefF("s", "C1"), U1("t")>>),
                       C1 |-> Class(DefaultOpts, <<S1("a"), MvField(U1("b"), mv), U1("c")>>)], {0, 1, 2}, 5,
                      IF UsesBegins(mv) THEN {0} ELSE {0, 2}) : mv \in Mods}
-U_C10_Class == {DeclO([DefaultOpts EXCEPT !.align = al], <<U1("a"), IntF("b", 2, FALSE, "default"), U1("c"), EmF("tail")>>,
+U_C10_Class(zz) == {DeclO([DefaultOpts EXCEPT !.align = al], <<U1("a"), IntF("b", 2, FALSE, "default"), U1("c"), EmF("tail")>>,
                       {0, 1}, 7) : al \in {2, 3, 4}}
                \cup {DeclP([C0 |-> Class(DefaultOpts, <<U1("h"), RefF("s", "C1")>>),
                             C1 |-> Class([DefaultOpts EXCEPT !.align = al], <<U1("a"), U1("b")>>)], {0, 1}, 6, {0}) : al \in {2, 3}}
-U_C10_Elem == {DeclP([C0 |-> Class(DefaultOpts, <<U1("n"), RepCountF("r", e, SzField("n"), NoCond, al), MvField(EmF("tail"), mv)>>),
+U_C10_Elem(zz) == {DeclP([C0 |-> Class(DefaultOpts, <<U1("n"), RepCountF("r", e, SzField("n"), NoCond, al), MvField(EmF("tail"), mv)>>),
                       C1 |-> Class(DefaultOpts, <<U1("x")>>)], {0, 1, 2}, 6, {0}) :
                  e \in {U1("e"), RefF("e", "C1"), IntF("e", 3, FALSE, "default")}, al \in {2, 3, 4, 6},
                  mv \in {NoMv, [kind |-> "aligned", arg |-> SzConst(4), ref |-> "innermost-pkt"]}}
               \cup {DeclP([C0 |-> Class(DefaultOpts, <<RepUntilF("r", U1("e"), Lam(EBin("eq", EIdx(EF("r"), EC(-1)), EC(0))), NoCond, al), U1("z")>>)],
                           {0, 1, 2}, 6, {0}) : al \in {2, 3}}
 \* a later field placed BEFORE an earlier one (no overlap): output order differs from position order
-U_C10_Back == {DeclP([C0 |-> Class(DefaultOpts, <<MvField(IntF("a", 2, FALSE, "default"), [kind |-> "at", arg |-> SzConst(p1), ref |-> r]),
+U_C10_Back(zz) == {DeclP([C0 |-> Class(DefaultOpts, <<MvField(IntF("a", 2, FALSE, "default"), [kind |-> "at", arg |-> SzConst(p1), ref |-> r]),
                                                   MvField(U1("b"), [kind |-> "at", arg |-> SzConst(p2), ref |-> r]), U1("c")>>)],
                      {0, 1, 2}, 5, IF r = "begins" THEN {0} ELSE {0, 1}) :
                   p1 \in {2, 3}, p2 \in {0, 1}, r \in {"innermost-pkt", "begins"}}
               \cup {DeclP([C0 |-> Class(DefaultOpts, <<U1("h"), IntF("a", 2, FALSE, "default"),
                                                        MvField(U1("b"), [kind |-> "shift", arg |-> SzConst(0 - k), ref |-> "current-offset"]),
                                                        U1("c")>>)], {0, 1, 2}, 5, {0, 1}) : k \in {1, 2, 3}}
-U_C10 == U_C10_Flat \cup U_C10_Nest \cup U_C10_Class \cup U_C10_Elem \cup U_C10_Back
+U_C10(zz) == U_C10_Flat(0) \cup U_C10_Nest(0) \cup U_C10_Class(0) \cup U_C10_Elem(0) \cup U_C10_Back(0)
 
 \* -------------------------------------------------------------------- C03
 \* runs of fixed-size fields with and without a struct code, mixed byte order and signedness, variable
@@ -204,11 +204,11 @@ U_C10 == U_C10_Flat \cup U_C10_Nest \cup U_C10_Class \cup U_C10_Elem \cup U_C10_
 FixedKinds == {U1("f"), IntF("f", 2, FALSE, "default"), IntF("f", 2, FALSE, "little"), IntF("f", 2, TRUE, "big"),
                IntF("f", 3, FALSE, "default"), DataF("f", SzConst(2))}
 Rename(f, nm) == [f EXCEPT !.name = nm]
-U_C03_Fixed == {DeclO([DefaultOpts EXCEPT !.endian = e], <<Rename(a, "a"), Rename(b, "b"), Rename(c, "c")>>, {0, 255}, 6) :
+U_C03_Fixed(zz) == {DeclO([DefaultOpts EXCEPT !.endian = e], <<Rename(a, "a"), Rename(b, "b"), Rename(c, "c")>>, {0, 255}, 6) :
                    a \in FixedKinds, b \in FixedKinds, c \in FixedKinds, e \in {"none"}}
                \cup {DeclO([DefaultOpts EXCEPT !.endian = "little"], <<Rename(a, "a"), Rename(b, "b"), IntF("c", 2, FALSE, "network")>>, {0, 255}, 6) :
                    a \in FixedKinds, b \in FixedKinds}
-U_C03_Mixed ==
+U_C03_Mixed(zz) ==
     {DeclP([C0 |-> Class(DefaultOpts, <<U1("a"), IntF("b", 2, FALSE, "default"), mid, IntF("y", 2, FALSE, "little"), U1("z")>>), C1 |-> Sub1],
            {0, 1, 2}, 7, {0, 1}) :
         mid \in {DataF("m", SzField("a")), RefF("m", "C1"), RepCountF("m", U1("e"), SzField("a"), NoCond, 0),
@@ -218,13 +218,13 @@ U_C03_Mixed ==
           DeclO(DefaultOpts, <<WithDesc(U1("n"), [kind |-> "autolen", of |-> "d"]), IntF("m", 2, FALSE, "default"), DataF("d", SzField("n")),
                                U1("z")>>, {0, 1, 2}, 6),
           DeclO(DefaultOpts, <<IntF("a", 4, TRUE, "default"), IntF("b", 4, FALSE, "little"), U1("z")>>, {0, 1, 127}, 9)}
-U_C03 == U_C03_Fixed \cup U_C03_Mixed
-U_C03_Q == {d \in U_C03_Fixed : d.prog["C0"].opts.endian = "little" \/ d.prog["C0"].fields[1].k = "Data"
-                                 \/ (d.prog["C0"].fields[1].k = "Int" /\ d.prog["C0"].fields[1].n \in {1, 3})} \cup U_C03_Mixed
+U_C03(zz) == U_C03_Fixed(0) \cup U_C03_Mixed(0)
+U_C03_Q(zz) == {d \in U_C03_Fixed(0) : d.prog["C0"].opts.endian = "little" \/ d.prog["C0"].fields[1].k = "Data"
+                                 \/ (d.prog["C0"].fields[1].k = "Int" /\ d.prog["C0"].fields[1].n \in {1, 3})} \cup U_C03_Mixed(0)
 
 \* -------------------------------------------------------------------- C12
 \* nested declarations driven into failure at every depth
-U_C12 ==
+U_C12(zz) ==
     {DeclP([C0 |-> Class(DefaultOpts, <<U1("h"), RefF("s", "C1"), IntF("t", 2, FALSE, "default")>>),
             C1 |-> Class(DefaultOpts, <<U1("n"), RepCountF("r", RefF("e", "C2"), SzField("n"), NoCond, 0),
                                         OptF("o", IntF("e", 3, FALSE, "default"), SzField("n"))>>),
@@ -258,28 +258,28 @@ RoundTripModes == {SzConst(0), SzConst(2), SzField("a"), Defer(EBin("mul", EF("a
                    SzMarker(<<0>>, FALSE, TRUE), SzMarker(<<0>>, TRUE, TRUE), SzMarker(<<1, 2>>, FALSE, TRUE),
                    SzRegex("Xplus", TRUE, TRUE), SzRegex("EOS", FALSE, TRUE)}
 AlphaFor(md) == IF md.m = "regex" THEN {88, 1, 2} ELSE {0, 1, 2}
-U_C01_Data == {DeclO([DefaultOpts EXCEPT !.sbl = w, !.endian = e],
+U_C01_Data(zz) == {DeclO([DefaultOpts EXCEPT !.sbl = w, !.endian = e],
                      <<U1("a"), DataF("d", md), IntF("z", 2, TRUE, "default")>>, AlphaFor(md), 6) :
                   md \in RoundTripModes, w \in {-1, 3}, e \in {"none", "little"}}
-U_C01_Move == {[d EXCEPT !.alpha = {0, 1, 2, 46}] : d \in U_C10_Flat \cup U_C10_Class \cup U_C10_Elem}
-U_C01_Ctl == {d \in U_C08_Count : d.prog["C0"].fields[3].count \in {SzField("n"), Defer(EBin("sub", EF("n"), EC(1)))}}
-             \cup U_C08_Until \cup U_C08_Opt \cup U_C08_Nest
+U_C01_Move(zz) == {[d EXCEPT !.alpha = {0, 1, 2, 46}] : d \in U_C10_Flat(0) \cup U_C10_Class(0) \cup U_C10_Elem(0)}
+U_C01_Ctl(zz) == {d \in U_C08_Count(0) : d.prog["C0"].fields[3].count \in {SzField("n"), Defer(EBin("sub", EF("n"), EC(1)))}}
+             \cup U_C08_Until(0) \cup U_C08_Opt(0) \cup U_C08_Nest(0)
 \* overlapping placements: two fields that may consume common bytes
-U_C01_Overlap == {DeclP([C0 |-> Class(DefaultOpts, <<U1("a"), DataF("b", SzConst(2)),
+U_C01_Overlap(zz) == {DeclP([C0 |-> Class(DefaultOpts, <<U1("a"), DataF("b", SzConst(2)),
                                                     MvField(DataF("c", SzField("a")), [kind |-> "at", arg |-> g, ref |-> "innermost-pkt"]),
                                                     MvField(U1("d"), [kind |-> "at", arg |-> SzConst(h), ref |-> "begins"])>>)],
                         {0, 1, 2, 46}, 5, {0}) : g \in {SzConst(0), SzConst(2), SzConst(3), SzConst(4)}, h \in {1, 3, 5}}
-U_C01_Before == {DeclP([C0 |-> Class(DefaultOpts, <<MvField(DataF("a", SzConst(n1)), [kind |-> "at", arg |-> SzConst(p1), ref |-> "innermost-pkt"]),
+U_C01_Before(zz) == {DeclP([C0 |-> Class(DefaultOpts, <<MvField(DataF("a", SzConst(n1)), [kind |-> "at", arg |-> SzConst(p1), ref |-> "innermost-pkt"]),
                                                      MvField(DataF("b", SzConst(n2)), [kind |-> "at", arg |-> SzConst(p2), ref |-> "innermost-pkt"])>>)],
                        {0, 1, 46}, 6, {0, 1}) : n1 \in {1, 2}, p1 \in {2, 4}, n2 \in {1, 3, 4}, p2 \in {0, 1, 2}}
-U_C01 == U_C01_Before \cup U_C10_Back \cup U_C01_Data \cup U_C01_Move \cup U_C01_Ctl \cup U_C01_Overlap \cup U_C07_24 \cup U_C07_Ctx
+U_C01(zz) == U_C01_Before(0) \cup U_C10_Back(0) \cup U_C01_Data(0) \cup U_C01_Move(0) \cup U_C01_Ctl(0) \cup U_C01_Overlap(0) \cup U_C07_24(0) \cup U_C07_Ctx(0)
 
 \* the every-change subset: every family is represented, the cross products are thinned
-U_C01_Q == U_C01_Data \cup U_C01_Overlap \cup U_C07_24 \cup U_C01_Before \cup U_C10_Back
-           \cup {[d EXCEPT !.alpha = {0, 1, 46}] : d \in U_C10_Class \cup U_C10_Elem}
-           \cup {[d EXCEPT !.alpha = {0, 2, 46}, !.starts = {0}] : d \in U_C10_Flat}
-           \cup U_C08_Until \cup U_C08_Nest
-           \cup {d \in U_C08_Opt : d.prog["C0"].fields[2].when = SzField("t")}
+U_C01_Q(zz) == U_C01_Data(0) \cup U_C01_Overlap(0) \cup U_C07_24(0) \cup U_C01_Before(0) \cup U_C10_Back(0)
+           \cup {[d EXCEPT !.alpha = {0, 1, 46}] : d \in U_C10_Class(0) \cup U_C10_Elem(0)}
+           \cup {[d EXCEPT !.alpha = {0, 2, 46}, !.starts = {0}] : d \in U_C10_Flat(0)}
+           \cup U_C08_Until(0) \cup U_C08_Nest(0)
+           \cup {d \in U_C08_Opt(0) : d.prog["C0"].fields[2].when = SzField("t")}
 
 \* no positioning measured from absolute position 0: 'begins' references, the class-wide align
 \* option, per-element alignment of repeated fields
@@ -289,13 +289,49 @@ NoBegins(d) == \A c \in DOMAIN d.prog : \A i \in 1..Len(d.prog[c].fields) :
 NoRawCallable0(d) == \A c \in DOMAIN d.prog : \A i \in 1..Len(d.prog[c].fields) :
                   LET f == d.prog[c].fields[i] IN ~(f.k = "Data" /\ f.size = Lam(EBin("sub", ERest, EC(1))))
 NoRawCallable(d) == NoRawCallable0(d)
-U_C14 == {d \in U_C01 \cup U_C06 : NoBegins(d) /\ NoRawCallable(d)}
+U_C14(zz) == {d \in U_C01(0) \cup U_C06(0) : NoBegins(d) /\ NoRawCallable(d)}
 IsScan(d) == d.prog["C0"].fields[2].k = "Data" /\ d.prog["C0"].fields[2].size.m \in {"marker", "regex"}
-U_C14_Q == {d \in {e \in U_C01_Data : e.prog["C0"].opts.endian = "none"} \cup U_C01_Before \cup U_C10_Back \cup U_C08_Nest
-                   \cup {e \in U_C10_Flat : e.prog["C0"].fields[2].mv.kind = "shift"}
-                   \cup {e \in U_C08_Until : e.prog["C0"].fields[2].aligned = 0 /\ e.prog["C0"].fields[2].when = NoCond}
-                   \cup {e \in U_C06 : Len(e.prog["C0"].fields) = 2 /\ e.prog["C0"].fields[1].k = "Data"}
-                   \cup {e \in U_C06 : Len(e.prog["C0"].fields) = 3 /\ IsScan(e) /\ e.prog["C0"].fields[2].size.consume
+U_C14_Q(zz) == {d \in {e \in U_C01_Data(0) : e.prog["C0"].opts.endian = "none"} \cup U_C01_Before(0) \cup U_C10_Back(0) \cup U_C08_Nest(0)
+                   \cup {e \in U_C10_Flat(0) : e.prog["C0"].fields[2].mv.kind = "shift"}
+                   \cup {e \in U_C08_Until(0) : e.prog["C0"].fields[2].aligned = 0 /\ e.prog["C0"].fields[2].when = NoCond}
+                   \cup {e \in U_C06(0) : Len(e.prog["C0"].fields) = 2 /\ e.prog["C0"].fields[1].k = "Data"}
+                   \cup {e \in U_C06(0) : Len(e.prog["C0"].fields) = 3 /\ IsScan(e) /\ e.prog["C0"].fields[2].size.consume
                                         /\ e.prog["C0"].opts.sbl \in (IF e.prog["C0"].fields[2].size.m = "regex" THEN {-1} ELSE {-1, 2})} :
                NoBegins(d) /\ NoRawCallable(d)}
+
+\* universes take a dummy parameter so that TLC does not evaluate all of them at start-up; a profile names the one it explores
+PickU(n) ==
+    CASE n = "U_Smoke" -> U_Smoke(0)
+      [] n = "U_C06" -> U_C06(0)
+      [] n = "U_C07_8" -> U_C07_8(0)
+      [] n = "U_C07_16" -> U_C07_16(0)
+      [] n = "U_C07_24" -> U_C07_24(0)
+      [] n = "U_C07_Ctx" -> U_C07_Ctx(0)
+      [] n = "U_C07" -> U_C07(0)
+      [] n = "U_C08_Count" -> U_C08_Count(0)
+      [] n = "U_C08_Until" -> U_C08_Until(0)
+      [] n = "U_C08_Opt" -> U_C08_Opt(0)
+      [] n = "U_C08_Nest" -> U_C08_Nest(0)
+      [] n = "U_C08_Shared" -> U_C08_Shared(0)
+      [] n = "U_C08" -> U_C08(0)
+      [] n = "U_C10_Flat" -> U_C10_Flat(0)
+      [] n = "U_C10_Nest" -> U_C10_Nest(0)
+      [] n = "U_C10_Class" -> U_C10_Class(0)
+      [] n = "U_C10_Elem" -> U_C10_Elem(0)
+      [] n = "U_C10_Back" -> U_C10_Back(0)
+      [] n = "U_C10" -> U_C10(0)
+      [] n = "U_C03_Fixed" -> U_C03_Fixed(0)
+      [] n = "U_C03_Mixed" -> U_C03_Mixed(0)
+      [] n = "U_C03" -> U_C03(0)
+      [] n = "U_C03_Q" -> U_C03_Q(0)
+      [] n = "U_C12" -> U_C12(0)
+      [] n = "U_C01_Data" -> U_C01_Data(0)
+      [] n = "U_C01_Move" -> U_C01_Move(0)
+      [] n = "U_C01_Ctl" -> U_C01_Ctl(0)
+      [] n = "U_C01_Overlap" -> U_C01_Overlap(0)
+      [] n = "U_C01_Before" -> U_C01_Before(0)
+      [] n = "U_C01" -> U_C01(0)
+      [] n = "U_C01_Q" -> U_C01_Q(0)
+      [] n = "U_C14" -> U_C14(0)
+      [] n = "U_C14_Q" -> U_C14_Q(0)
 =============================================================================
